@@ -68,6 +68,7 @@ void terminal::set_size(extent size)
     // to an unknown one, it ensures that a precise move occurs the next
     // time the cursor is moved to a position.
     state_.cursor_position_ = {};
+    state_.saved_cursor_position_ = {};
 }
 
 // ==========================================================================
